@@ -257,6 +257,7 @@ package ggql
 //@   requires b != nil
 //@   use directiveName(du)
 //@   ensures[found] du != nil ==> (exists i int :: 0 <= i && i < len(b.Dirs) && du == b.Dirs[i] && b.Dirs[i].Directive.Name() == name)
+//@   ensures[found-directive] du != nil ==> is(du.Directive, *Directive) && as(du.Directive, *Directive) != nil && as(du.Directive, *Directive).N == name && (exists i int {b.Dirs[i]} :: 0 <= i && i < len(b.Dirs) && du == b.Dirs[i])
 //@   ensures[none] du == nil && dirsResolved(b.Dirs) ==> (forall i int :: 0 <= i && i < len(b.Dirs) ==> b.Dirs[i].Directive.Name() != name)
 //@   assigns nothing
 //@   loop 0: invariant[bounds] 0 <= rangeindex+1 && rangeindex+1 <= len(b.Dirs)
